@@ -41,7 +41,7 @@ Print Assumptions C10_index_range_covers.
    holds the chunk; the saved state never claims more than the cache file holds (start-up rewrites the state whenever
    it does not load it); every completed ReadAt returned the blob's bytes. *)
 Theorem C10_sparse_inv : forall H idx blob maxsz store sched,
-  index_describes H idx blob -> store_sound H store ->
+  index_describes H idx blob -> store_sound H store -> (forall k i, store k i <> SFail code_bare_eof) ->
   let nullid := snd (new_null_chunk H maxsz) in
   loader_inv idx nullid blob (run (step idx nullid store) sched (init idx)) \/ Collision H.
 Proof. exact sparse_inv. Qed.
@@ -50,9 +50,12 @@ Print Assumptions C10_sparse_inv.
 (* sparse_read_sound.  Spelled out for one ReadAt: whatever happened before and concurrently (interleavings,
    transient store failures, WriteState at any point, every restart of the kind above, preload), a ReadAt(len, off)
    that reports success (nil or io.EOF) returned exactly blob[off, off+n) with n = min(len, L-off) and io.EOF iff
-   n < len -- never the zeros of an unpopulated range.  No premise on the schedule. *)
+   n < len -- never the zeros of an unpopulated range.  No premise on the schedule.  Premise on the store: its errors
+   are never the value io.EOF itself (code_bare_eof) -- ReadAt hands a store error to its caller unchanged, and
+   (0, io.EOF) IS the observation "end of file": see C10_store_eof_refuted (finding).  Errors that merely wrap io.EOF
+   (what a StoreRouter reports) are covered. *)
 Theorem C10_sparse_read_sound : forall H idx blob maxsz store sched off len d eof,
-  index_describes H idx blob -> store_sound H store ->
+  index_describes H idx blob -> store_sound H store -> (forall k i, store k i <> SFail code_bare_eof) ->
   let nullid := snd (new_null_chunk H maxsz) in
   In (RqRead off len, ROk d eof) (s_log (run (step idx nullid store) sched (init idx))) ->
   off + Z.of_nat len < two64 ->
@@ -73,7 +76,7 @@ Theorem C10_sparse_failed_load : forall idx nullid store s k th i todo rq q c,
     s_done s' = s_done s /\ s_file s' = s_file s /\ s_calls s' = S (s_calls s) /\
     s_mutex s' = set_nth (s_mutex s) i false /\
     nth_error (s_threads s') k = Some (mkthread q None) /\
-    s_log s' = (rq, match rq with RqRead _ _ => RErr (XStore c) | _ => RDone end) :: s_log s.
+    s_log s' = (rq, match rq with RqRead _ _ => read_error (XStore c) | _ => RDone end) :: s_log s.
 Proof. exact sparse_failed_load. Qed.
 Print Assumptions C10_sparse_failed_load.
 
@@ -84,7 +87,7 @@ Print Assumptions C10_sparse_failed_load.
    leaves no done bit: after a failed load a later read of that range calls the store again, or is served by another
    successful call, or fails -- it never succeeds on the unpopulated zeros. *)
 Theorem C10_sparse_retry : forall idx nullid store sched off len d eof,
-  tiles_from 0 idx ->
+  tiles_from 0 idx -> (forall k i, store k i <> SFail code_bare_eof) ->
   let s := run (step idx nullid store) sched (init idx) in
   In (RqRead off len, ROk d eof) (s_log s) ->
   0 <= off -> (1 <= len)%nat -> off + Z.of_nat len < two64 ->
@@ -200,3 +203,25 @@ Proof.
   exists ([LSubmit 0 (RqRead 0 2)] ++ T0x 4 ++ [LSubmit 0 (RqRead 0 2)] ++ T0x 4), [0; 0]%N, false.
   vm_compute. split; [reflexivity|discriminate].
 Qed.
+
+(* A waiter behind a failing leader (every schedule is covered by C10_sparse_read_sound; this is the one a TryLock
+   "optimisation" would break): reader 0 and reader 1 need chunk 0; reader 0 holds the chunk mutex and is inside
+   GetChunk when reader 1 arrives and blocks on the mutex; reader 0's fetch fails; reader 1 then takes the mutex,
+   re-checks the done bit, fetches (call 1) and returns the blob's bytes. *)
+Example C10_example_waiter_behind_failed_leader :
+  let s := ex_run ([LSubmit 0 (RqRead 0 2); LSubmit 1 (RqRead 1 1)] ++ T0x 2 (* scan, lock: inside GetChunk *) ++
+                   [LThread 1 (* scan *); LThread 1 (* blocked *); LThread 1] ++ T0x 1 (* the fetch fails *) ++
+                   [LThread 1; LThread 1; LThread 1; LThread 1; LThread 1] (* lock+re-check, fetch, write, set, read *)) in
+  s_log s = [(RqRead 1 1, ROk [6]%N false); (RqRead 0 2, RErr (XStore 2))] /\ s_calls s = 2%nat.
+Proof. vm_compute. split; reflexivity. Qed.
+
+(* FINDING (store error io.EOF): a store that fails with the value io.EOF itself (a remote that went away, not behind a
+   StoreRouter) makes ReadAt return (0, io.EOF) for a range inside the blob -- to the caller (e.g. the mount-sparse
+   node, which answers OK with 0 bytes) a successful read that reached the end of the file.  The same defect was
+   repaired in the index reader by 898d634; the sparse loader still has it. *)
+Definition ex_store_eof : store_t := fun k i => if (k =? 0)%nat then SFail code_bare_eof else ex_store k i.
+Theorem C10_store_eof_refuted :
+  exists sched d eof,
+    hd_error (s_log (run (step ex_idx ex_null ex_store_eof) sched (init ex_idx))) = Some (RqRead 0 2, ROk d eof) /\
+    length d <> Nat.min 2 (length ex_blob - 0).
+Proof. exists ([LSubmit 0 (RqRead 0 2)] ++ T0x 4), [], true. vm_compute. split; [reflexivity|discriminate]. Qed.
